@@ -28,10 +28,72 @@ func init() {
 // chanID identifies a channel variable across a function and its closures: the parent's cell for
 // captured variables, else the value itself.
 func chanID(v ssa.Value) ssa.Value {
+	for i := 0; i < 4; i++ {
+		// a channel handed to a worker function as an argument of its one `go` statement (closure-to-method
+		// refactoring): the identity is that of the argument
+		if prm, ok := v.(*ssa.Parameter); ok {
+			if a := uniqueGoArg(prm); a != nil {
+				v = stripChanConv(a)
+				continue
+			}
+		}
+		break
+	}
 	if u, ok := v.(*ssa.UnOp); ok && u.Op == token.MUL {
 		return resolveAddr(u.X)
 	}
 	return v
+}
+
+// uniqueGoArg: prm's function is started by exactly one `go f(args...)` statement (and called nowhere else) — the
+// argument bound to prm there; nil otherwise.
+func uniqueGoArg(prm *ssa.Parameter) ssa.Value {
+	fn := prm.Parent()
+	if fn == nil || fn.Pkg == nil {
+		return nil
+	}
+	idx := -1
+	for i, q := range fn.Params {
+		if q == prm {
+			idx = i
+		}
+	}
+	var found ssa.Value
+	n := 0
+	for _, m := range fn.Pkg.Members {
+		walk := func(g *ssa.Function) {
+			eachInstrDeep(g, func(_ *ssa.Function, in ssa.Instruction) {
+				ci, ok := in.(ssa.CallInstruction)
+				if !ok || ci.Common().StaticCallee() != fn {
+					return
+				}
+				n++
+				if _, isGo := in.(*ssa.Go); isGo && idx >= 0 && idx < len(ci.Common().Args) {
+					found = ci.Common().Args[idx]
+				} else {
+					found = nil
+					n += 10
+				}
+			})
+		}
+		switch x := m.(type) {
+		case *ssa.Function:
+			walk(x)
+		case *ssa.Type:
+			for _, t := range []types.Type{x.Type(), types.NewPointer(x.Type())} {
+				ms := fn.Prog.MethodSets.MethodSet(t)
+				for i := 0; i < ms.Len(); i++ {
+					if g := fn.Prog.MethodValue(ms.At(i)); g != nil && g.Pkg == fn.Pkg {
+						walk(g)
+					}
+				}
+			}
+		}
+	}
+	if n != 1 {
+		return nil
+	}
+	return found
 }
 
 func runC20(c *Ctx) {
@@ -45,7 +107,7 @@ func runC20(c *Ctx) {
 	goInstr := map[*ssa.Function]*ssa.Go{}
 	eachInstr(df, func(in ssa.Instruction) {
 		if g, ok := in.(*ssa.Go); ok {
-			if fn := staticCallee(g); fn != nil && fn.Parent() == df {
+			if fn := staticCallee(g); fn != nil && (fn.Parent() == df || (fn.Pkg == df.Pkg && len(fn.Blocks) > 0)) {
 				workers = append(workers, fn)
 				goInstr[fn] = g
 			}
@@ -500,38 +562,75 @@ func runC20(c *Ctx) {
 						}
 					}
 				}
+				if gd.Derived {
+					continue
+				}
 				extra = guardText(gd)
 			}
 			c.check(g && recv && extra == "", "caller-skips-nil", instrPos(in), "exactly the non-nil received results become the response", "the caller accepts a nil result, a value that was not received from the result channel, or skips some non-nil results ("+extra+"): a usable answer is thrown away and the call waits for nothing")
 		})
 		if md := c.fn(relFallback, "", "makeDdlCtx"); md != nil {
 			// the workers' context carries the caller's deadline (or now+timeout), nothing later
-			good := false
+			// every returned context is WithDeadline(_, <the caller's deadline>) or WithDeadline(_, now + timeout) /
+			// WithTimeout(_, timeout) — the latter two only where the caller has no deadline; both kinds occur
+			hasCaller, hasOwn, okAll := false, false, true
+			isDeadlineOf := func(v ssa.Value, idx int) bool {
+				e2, ok := v.(*ssa.Extract)
+				if !ok || e2.Index != idx {
+					return false
+				}
+				c2, ok := e2.Tuple.(*ssa.Call)
+				return ok && callName(c2) == "invoke:(context.Context).Deadline" && c2.Call.Value == ssa.Value(md.Params[0])
+			}
+			noCallerDeadline := func(gs []guard) bool {
+				for _, g := range gs {
+					if v, truth := g.asBool(); !truth && isDeadlineOf(v, 1) {
+						return true
+					}
+				}
+				return false
+			}
+			nRet := 0
 			for _, r := range returnsOf(md) {
 				rv := returnedValues(r)
-				ex, ok := rv[0].(*ssa.Extract)
-				if !ok {
-					continue
-				}
-				cl, ok := ex.Tuple.(*ssa.Call)
-				if !ok || callName(cl) != "context.WithDeadline" {
-					continue
-				}
-				okAll, n := true, 0
-				for _, lf := range expandCases(cl.Call.Args[1], nil, 0) {
-					n++
-					if e2, ok := lf.val.(*ssa.Extract); ok {
-						if c2, ok := e2.Tuple.(*ssa.Call); ok && callName(c2) == "invoke:(context.Context).Deadline" && c2.Call.Value == ssa.Value(md.Params[0]) {
-							continue
-						}
-					}
-					if c3, ok := lf.val.(*ssa.Call); ok && callName(c3) == "(time.Time).Add" && c3.Call.Args[1] == ssa.Value(md.Params[1]) {
+				nRet++
+				for _, lfc := range expandCases(rv[0], nil, 0) {
+					ex, ok := lfc.val.(*ssa.Extract)
+					if !ok || ex.Index != 0 {
+						okAll = false
 						continue
 					}
-					okAll = false
+					cl, ok := ex.Tuple.(*ssa.Call)
+					if !ok {
+						okAll = false
+						continue
+					}
+					gs := append(append([]guard{}, lfc.guards...), guardsOfInstr(cl)...)
+					switch callName(cl) {
+					case "context.WithDeadline":
+						for _, lf := range expandCases(cl.Call.Args[1], nil, 0) {
+							if isDeadlineOf(lf.val, 0) {
+								hasCaller = true
+								continue
+							}
+							if c3, ok := lf.val.(*ssa.Call); ok && callName(c3) == "(time.Time).Add" && c3.Call.Args[1] == ssa.Value(md.Params[1]) {
+								hasOwn = true
+								continue
+							}
+							okAll = false
+						}
+					case "context.WithTimeout":
+						if cl.Call.Args[1] == ssa.Value(md.Params[1]) && noCallerDeadline(gs) {
+							hasOwn = true
+						} else {
+							okAll = false
+						}
+					default:
+						okAll = false
+					}
 				}
-				good = okAll && n == 2
 			}
+			good := okAll && hasCaller && hasOwn && nRet > 0
 			c.check(good, "worker-deadline:helper", md.Pos(), "makeDdlCtx = WithDeadline(Background, caller's deadline or now+timeout)", "makeDdlCtx does not carry the caller's deadline (or now+timeout): workers outlive the call")
 		}
 		// loop bound
@@ -543,9 +642,26 @@ func runC20(c *Ctx) {
 				continue
 			}
 			if bo, ok := iff.Cond.(*ssa.BinOp); ok && bo.Op == token.LSS {
-				if _, isPhi := bo.X.(*ssa.Phi); isPhi {
+				_, isPhi := bo.X.(*ssa.Phi)
+				// `for range n` (Go 1.22) is lowered to a loop that tests i+1 < n with i starting at -1
+				if inc, isInc := bo.X.(*ssa.BinOp); isInc && inc.Op == token.ADD {
+					if _, p1 := inc.X.(*ssa.Phi); p1 {
+						if k, isK := constInt(inc.Y); isK && k == 1 {
+							isPhi = true
+						}
+					}
+				}
+				if isPhi {
 					if n, ok := constInt(bo.Y); ok && b.Dominates(callerSel.Block()) {
 						iv, loopIf = n, iff
+					}
+				}
+				// rotated form: the test sits in the latch block, its true edge re-enters the body whose phi it increments
+				if inc, isInc := bo.X.(*ssa.BinOp); isInc && inc.Op == token.ADD && len(b.Succs) == 2 {
+					if ph, p1 := inc.X.(*ssa.Phi); p1 && ph.Block() == b.Succs[0] && ph.Block().Dominates(callerSel.Block()) {
+						if n, ok := constIntOrChanCap(bo.Y); ok {
+							iv, loopIf = n, iff
+						}
 					}
 				}
 			}
@@ -581,7 +697,21 @@ func runC20(c *Ctx) {
 		tr.throughParams = false
 		tr.throughFields = false
 		tr.throughCalls = false
-		roots := tr.origins(args[2])
+		// a worker that is a function of its own gets what the closure used to capture as arguments of its `go` statement
+		viaGo := func(vs []ssa.Value) []ssa.Value {
+			var out []ssa.Value
+			for _, v := range vs {
+				if prm, isP := v.(*ssa.Parameter); isP && prm.Parent() == w && w.Parent() != df {
+					if a := uniqueGoArg(prm); a != nil {
+						out = append(out, tr.origins(a)...)
+						continue
+					}
+				}
+				out = append(out, v)
+			}
+			return out
+		}
+		roots := viaGo(tr.origins(args[2]))
 		good := len(roots) > 0
 		for _, r := range roots {
 			cl, ok := r.(*ssa.Call)
@@ -604,7 +734,7 @@ func runC20(c *Ctx) {
 				good = false
 				continue
 			}
-			pr := tr.origins(cl.Call.Args[0])
+			pr := viaGo(tr.origins(cl.Call.Args[0]))
 			if len(pr) != 1 || pr[0] != ssa.Value(df.Params[1]) {
 				good = false
 			}
@@ -652,6 +782,9 @@ func runC20(c *Ctx) {
 	{
 		seen := map[ssa.Value]string{}
 		shared := ""
+		seenCtx := map[ssa.Value]string{}
+		sharedCtx := ""
+		foreignCancel := ""
 		for _, w := range workers {
 			ci, which := execOf(w)
 			if ci == nil {
@@ -665,7 +798,104 @@ func runC20(c *Ctx) {
 				}
 				seen[r] = which
 			}
+			// ... nor a deadline context, and a worker's context is cancelled by that worker alone
+			for _, r := range tr.origins(callArgs(ci)[1]) {
+				if other, dup := seenCtx[r]; dup && other != which {
+					sharedCtx = other + " and " + which
+				}
+				seenCtx[r] = which
+				ex, ok := r.(*ssa.Extract)
+				if !ok {
+					continue
+				}
+				tup, ok := ex.Tuple.(*ssa.Call)
+				if !ok {
+					continue
+				}
+				for _, r2 := range referrers(tup) {
+					e2, ok := r2.(*ssa.Extract)
+					if !ok || e2.Index != 1 {
+						continue
+					}
+					// every function that gets hold of the cancel function (directly or through a captured cell)
+					var holders []*ssa.Function
+					for _, u := range referrers(e2) {
+						switch y := u.(type) {
+						case *ssa.Store:
+							for _, u2 := range referrers(y.Addr) {
+								if mc, ok := u2.(*ssa.MakeClosure); ok {
+									holders = append(holders, mc.Fn.(*ssa.Function))
+								}
+								if ld, ok := u2.(*ssa.UnOp); ok && len(*ld.Referrers()) > 0 {
+									holders = append(holders, ld.Parent())
+								}
+							}
+						case *ssa.MakeClosure:
+							holders = append(holders, y.Fn.(*ssa.Function))
+						case *ssa.DebugRef:
+						default:
+							holders = append(holders, u.Parent())
+						}
+					}
+					for _, h := range holders {
+						if h != w && h != tup.Parent() {
+							foreignCancel = which + " worker's context can be cancelled by " + funcName(h)
+						} else if h == tup.Parent() && h != w {
+							// made outside the worker (hoisted): fine only if the maker does not call it itself
+							for _, u := range referrers(e2) {
+								if _, isDefer := u.(*ssa.Defer); isDefer {
+									foreignCancel = which + " worker's context is cancelled when " + funcName(h) + " returns"
+								}
+							}
+						}
+					}
+				}
+			}
 		}
+		if sharedCtx != "" && foreignCancel != "" {
+			sharedCtx += "; "
+		}
+		// the two sequences run nowhere else: a path around doFallback (a "fast path" that runs the primary in place)
+		// has no secondary, no failover
+		outside := ""
+		for _, fn := range p.funcsIn(relFallback) {
+			isWorker := false
+			for _, w := range workers {
+				for _, h := range withAnon(w) {
+					if fn == h {
+						isWorker = true
+					}
+				}
+			}
+			if isWorker {
+				continue
+			}
+			eachInstr(fn, func(in ssa.Instruction) {
+				ci, ok := in.(ssa.CallInstruction)
+				if !ok || !ci.Common().IsInvoke() || ci.Common().Method.Name() != "Exec" {
+					return
+				}
+				if k, ok := loadedField(ci.Common().Value); ok && (k == relFallback+".fallback.primary" || k == relFallback+".fallback.secondary") {
+					outside = p.pos(instrPos(in)) + " in " + funcName(fn)
+				}
+			})
+		}
+		c.check(outside == "", "sequences-run-only-in-workers", df.Pos(), "the primary and the secondary sequence are executed by the two workers of doFallback only",
+			"a sequence is executed outside the workers of doFallback ("+outside+"): on that path a failed or slow primary is not covered by the secondary")
+		if ex := c.fn(relFallback, "fallback", "Exec"); ex != nil {
+			good := true
+			n := 0
+			for _, r := range returnsOf(ex) {
+				n++
+				cl, ok := returnedValues(r)[0].(*ssa.Call)
+				if !ok || staticCallee(cl) != df {
+					good = false
+				}
+			}
+			c.check(good && n > 0, "exec-is-fallback", ex.Pos(), "Exec returns doFallback's result on every path", "fallback.Exec has a path that does not go through doFallback")
+		}
+		c.check(sharedCtx == "" && foreignCancel == "", "worker-contexts-own", df.Pos(), "each worker runs under its own deadline context and only that worker cancels it",
+			"the deadline contexts of the workers are not independent ("+sharedCtx+foreignCancel+"): when one worker leaves, the other's Exec is cancelled — a secondary that fails while the primary is still running kills the primary, and the call fails although only one side failed")
 		c.check(shared == "" && len(seen) >= 2, "worker-copies-distinct", df.Pos(), "each worker has its own copy of the query context", "the "+shared+" workers run on the same context copy: they race on it and the primary can hand the caller the answer the secondary stored")
 	}
 	// the threshold: milliseconds from the configuration, default when not positive
@@ -806,4 +1036,33 @@ func isParamValue(p *Prog, v ssa.Value, prm *ssa.Parameter) bool {
 	tr.throughCalls = false
 	r := tr.origins(v)
 	return len(r) == 1 && r[0] == ssa.Value(prm)
+}
+
+// constIntOrChanCap: a constant, or cap(ch) of a channel made in this function with a constant buffer size.
+func constIntOrChanCap(v ssa.Value) (int64, bool) {
+	if n, ok := constInt(v); ok {
+		return n, true
+	}
+	cl, ok := v.(*ssa.Call)
+	if !ok || callName(cl) != "builtin:cap" || len(cl.Call.Args) != 1 {
+		return 0, false
+	}
+	ch := chanID(cl.Call.Args[0])
+	var size int64 = -1
+	collect := func(x ssa.Value) {
+		if mk, ok := x.(*ssa.MakeChan); ok {
+			if n, ok := constInt(mk.Size); ok {
+				size = n
+			}
+		}
+	}
+	collect(ch)
+	if al, ok := ch.(*ssa.Alloc); ok {
+		for _, r := range referrers(al) {
+			if st, ok := r.(*ssa.Store); ok && st.Addr == ssa.Value(al) {
+				collect(st.Val)
+			}
+		}
+	}
+	return size, size >= 0
 }
